@@ -80,8 +80,12 @@ theorem rekey_length (u : List Int) (pl : List PhaseInfo) (h : u.length = pl.len
 occur in the data (in ascending order), `not_indexed` is added iff -1 occurs -/
 theorem reconcile_rekey (ids : List Int) (pl : List PhaseInfo) (u : List Int) (ni : Bool)
     (hu : uniqSorted ids = (if ni then [(-1 : Int)] else []) ++ u) (hpos : ∀ a ∈ u, (-1 : Int) < a)
-    (hl : pl.length = u.length) :
+    (hl : pl.length = u.length) (hne : ∀ p ∈ pl, p.id ≠ -1) :
     reconcile ids pl = some ((if ni then [notIndexedPhase] else []) ++ rekey u pl) := by
+  have hfil : pl.filter (fun x => x.id != -1) = pl := by
+    rw [List.filter_eq_self]
+    intro p hp
+    simpa using hne p hp
   cases ni with
   | false =>
     have hh : (u.head? == some (-1 : Int)) = false := by
@@ -92,11 +96,11 @@ theorem reconcile_rekey (ids : List Int) (pl : List PhaseInfo) (u : List Int) (n
         have hne : a ≠ -1 := by omega
         simp [hne]
     simp only [Bool.false_eq_true, if_false, List.nil_append] at hu ⊢
-    simp only [reconcile, hu, hh, Bool.false_eq_true, if_false, hl, lt_irrefl, Nat.sub_self, dropSuperfluous,
+    simp only [reconcile, hfil, hu, hh, Bool.false_eq_true, if_false, hl, lt_irrefl, Nat.sub_self, dropSuperfluous,
       List.reverse_reverse]
   | true =>
     simp only [if_true, List.singleton_append] at hu ⊢
-    simp [reconcile, hu, hl, dropSuperfluous]
+    simp [reconcile, hfil, hu, hl, dropSuperfluous]
 
 /-- two phase lists that agree up to ids -/
 def sameUpToId (a b : List PhaseInfo) : Prop :=
